@@ -191,7 +191,46 @@ pub fn check(c: &c01::Case) -> Verdict {
             }
         }
     }
+    // a writer that is used again after an aborted request: every prefix of the retry must be consistent too
+    let mut retried = 0;
+    if ok && n_calls > 8 {
+        let h = fp_json(c);
+        for r in 0..2u64 {
+            let k = 6 + (h >> (8 + 16 * r)) % (n_calls - 6);
+            let mut w = make_writer(t.pid, &opts);
+            let mut failing = Dest::new(vec![], 0).with_fault(Fault::ErrAt(k));
+            match run_dump(&mut w, &mut failing) {
+                DumpOutcome::Err(_) => {}
+                DumpOutcome::Panic(loc, msg) => return panic_verdict(&loc, &msg),
+                DumpOutcome::Ok(_) => continue,
+            }
+            if !t.wait_settled(&bt.spec) {
+                return Verdict::Inconclusive("target did not settle between two requests".into());
+            }
+            // the retry is made with less configured (no application memory), as a caller might after a failure
+            if r == 1 {
+                w.app_memory.clear();
+            }
+            let mut dest = Dest::new(vec![], 0).with_snapshots();
+            if let DumpOutcome::Panic(loc, msg) = run_dump(&mut w, &mut dest) {
+                return panic_verdict(&loc, &msg);
+            }
+            let inner = dest.0.borrow();
+            for (j, snap) in inner.snapshots.as_ref().unwrap().iter().enumerate() {
+                if let Some(p) = snapshot_problem(snap) {
+                    return Verdict::viol(
+                        format!("C10:retry-prefix:{}", p.sig),
+                        format!("a writer whose previous request was aborted by an I/O error at destination call {k} made another request: after its write #{j} the destination ({} bytes) is not a consistent truncated minidump: {}", snap.len(), p.detail),
+                    );
+                }
+            }
+            retried += 1;
+        }
+    }
     let mut classes = vec![format!("writes:{}", n_snaps / 10 * 10)];
+    if retried > 0 {
+        classes.push("retry-after-aborted-request".into());
+    }
     if prefilled {
         classes.push(format!("destination-with-longer-existing-content:p0={p0}"));
     }
@@ -211,7 +250,7 @@ pub fn run(ctx: &mut LaneCtx) {
         SubSpec {
             name: "prefix-snapshots",
             cases: (128, 6_000),
-            rule: "generated scenarios (as C01, up to 6 extra threads) dumped into a recording destination (empty, or holding 400 KiB of older content that is overwritten from position 0 or 4096); EVERY write boundary of each scenario is decoded in truncation mode and an I/O error is injected at EVERY destination call in turn (exhaustive per scenario); non-trivial = scenario has boundaries between the append of a stream and the write of its directory entry; distinct = hash of scenario",
+            rule: "generated scenarios (as C01, up to 6 extra threads) dumped into a recording destination (empty, or holding 400 KiB of older content that is overwritten from position 0 or 4096); EVERY write boundary of each scenario is decoded in truncation mode and an I/O error is injected at EVERY destination call in turn (exhaustive per scenario), and for two of those calls the same writer then makes another request whose prefixes are judged as well; non-trivial = scenario has boundaries between the append of a stream and the write of its directory entry; distinct = hash of scenario",
             strategy: c01::case_strategy(7).boxed(),
             max_shrink_iters: 100,
             log_current: true,
